@@ -58,6 +58,9 @@ func (s *State) evalAssignment(right object.Object, node *ast.InfixExpression) o
 }
 
 func (s *State) evalIndexAssigment(which ast.Node, index, value object.Object) object.Object {
+	// Registers are live pointers: store the integers they hold now.
+	index = object.CopyRegister(index)
+	value = object.CopyRegister(value)
 	if which.Value().Type() != token.IDENT {
 		return s.NewError("index assignment to non identifier: " + which.Value().DebugString())
 	}
@@ -364,7 +367,7 @@ func (s *State) evalMapLiteral(node *ast.MapLiteral) object.Object {
 
 	for _, keyNode := range node.Order {
 		valueNode := node.Pairs[keyNode]
-		key := s.Eval(keyNode)
+		key := object.CopyRegister(s.Eval(keyNode))
 		if key.Type() == object.ERROR {
 			return key
 		}
@@ -372,7 +375,7 @@ func (s *State) evalMapLiteral(node *ast.MapLiteral) object.Object {
 			log.Warnf("key %s is not hashable", key.Inspect())
 			return s.NewError("key " + key.Inspect() + " is not hashable")
 		}
-		value := s.Eval(valueNode)
+		value := object.CopyRegister(s.Eval(valueNode))
 		if value.Type() == object.ERROR {
 			return value
 		}
@@ -515,7 +518,7 @@ func (s *State) evalBuiltin(node *ast.Builtin) object.Object {
 		return s.evalPrintLogError(node)
 	}
 	if minV > 0 {
-		val = s.evalInternal(node.Parameters[0])
+		val = object.CopyRegister(s.evalInternal(node.Parameters[0]))
 		rt = val.Type()
 		if rt == object.ERROR && t != token.LOG && t != token.CATCH { // log can log (and thus catch) errors.
 			return val
